@@ -29,6 +29,11 @@ LIB = {
     'linl':  {'eqs': ["membrane_x' = -decay_rate_a*membrane_x + input_drive_ext"], 'state': ['membrane_x'],
               'const': ['decay_rate_a'], 'in': 'input_drive_ext', 'out': 'membrane_x',
               'defaults': {'membrane_x': 0.5, 'decay_rate_a': 2.0}},
+    # complex-valued state (run with float_precision='complex128'); spec values of z are [re, im] pairs
+    'cz':    {'eqs': ["z' = (ic*om - dl)*z + u"], 'state': ['z'], 'const': ['om', 'dl'], 'in': 'u', 'out': 'z',
+              'defaults': {'z': [0.5, 0.25], 'om': 3.0, 'dl': 0.5}, 'complex': True},
+    'cdd':   {'eqs': ["z' = (ic*om - dl)*z - a*past(z, tau) + u"], 'state': ['z'], 'const': ['om', 'dl', 'a', 'tau'], 'in': 'u',
+              'out': 'z', 'defaults': {'z': [0.5, 0.25], 'om': 3.0, 'dl': 0.5, 'a': 1.0, 'tau': 0.05}, 'complex': True, 'dde': True},
     # delayed self-coupling in both notations (one delayed term per operator: forms with two are refused loudly today)
     'dd':    {'eqs': ["x' = -a*past(x, tau) + c*x + u"], 'state': ['x'], 'const': ['a', 'c', 'tau'], 'in': 'u', 'out': 'x',
               'defaults': {'x': 1.0, 'a': 2.0, 'c': 0.25, 'tau': 0.05}, 'dde': True},
@@ -65,13 +70,22 @@ def edge_value(attrs, ets, y, src):
     return w * kk * (y[src] - y[attrs['wire']])
 
 
+def cval(v):
+    """spec value -> Python number ([re, im] pairs stand for complex numbers)"""
+    return complex(v[0], v[1]) if isinstance(v, (list, tuple)) else v
+
+
 def ref_rhs(lib, p, s, u, past=None):
     """derivatives of operator `lib` with parameters p, state s (dicts) and summed input u;
     past(var, delay) -> value of this operator's state variable `var` at time now - delay (DDE operators)"""
     if lib in ('dd', 'ddt'):
         return {'x': -p['a'] * past('x', p['tau']) + p['c'] * s['x'] + u}
+    if lib == 'cdd':
+        return {'z': (1j * p['om'] - p['dl']) * s['z'] - p['a'] * past('z', p['tau']) + u}
     if lib == 'lin':
         return {'x': -p['a'] * s['x'] + u}
+    if lib == 'cz':
+        return {'z': (1j * p['om'] - p['dl']) * s['z'] + u}
     if lib == 'linl':
         return {'membrane_x': -p['decay_rate_a'] * s['membrane_x'] + u}
     if lib == 'sat':
@@ -91,6 +105,8 @@ def recover_input(lib, p, s, r):
     """invert ref_rhs for the summed input u given the derivative dict r (exact for lin/integ/osc/leak)"""
     if lib == 'lin':
         return r['x'] + p['a'] * s['x']
+    if lib == 'cz':
+        return r['z'] - (1j * p['om'] - p['dl']) * s['z']
     if lib == 'linl':
         return r['membrane_x'] + p['decay_rate_a'] * s['membrane_x']
     if lib == 'integ':
@@ -144,8 +160,8 @@ class RefNet:
                 vals.update(op.get('defaults', {}))
                 vals.update(nt.get('var', {}).get(opk, {}))
                 L = LIB[op['lib']]
-                self.inst[(node, op['name'])] = {'lib': op['lib'], 'p': {k: vals[k] for k in L['const']},
-                                                 's0': {k: vals[k] for k in L['state']}}
+                self.inst[(node, op['name'])] = {'lib': op['lib'], 'p': {k: cval(vals[k]) for k in L['const']},
+                                                 's0': {k: cval(vals[k]) for k in L['state']}}
         self.state_names = [f'{n}/{o}/{v}' for (n, o), i in self.inst.items() for v in LIB[i['lib']]['state']]
 
     def set_value(self, node, opname, var, val):
@@ -247,8 +263,10 @@ def gen_net(rng, n_nodes=None, libs=('lin', 'sat', 'osc', 'leak', 'integ', 'linl
     spec = {'name': 'c' + uniq, 'build': build or rng.choice(['python', 'yaml']), 'ops': {}, 'nts': {}, 'edges': []}
     for k in sorted(set(kinds)):
         spec['ops'][k + uniq] = {'lib': k, 'name': k + uniq, 'defaults': dict(LIB[k]['defaults'])}
-        if rng.random() < 0.3 and not LIB[k].get('array'):
+        if rng.random() < 0.3 and not LIB[k].get('array') and not LIB[k].get('complex'):
             spec['ops'][k + uniq]['decl'] = 'dict'      # variables declared as definition dicts (Python builds only)
+    if any(LIB[k].get('complex') for k in kinds):
+        spec['build'] = 'python'          # complex literals in node-level variations are a Python-frontend matter here
     pool = list(range(-96, 97))
     rng.shuffle(pool)
     names = node_names(rng, n)
@@ -267,6 +285,8 @@ def gen_net(rng, n_nodes=None, libs=('lin', 'sat', 'osc', 'leak', 'integ', 'linl
                 var[c] = _grid(rng, -2.0, 2.0, 16) or 0.5
         for s in LIB[k]['state']:
             var[s] = pool.pop() / 64
+            if LIB[k].get('complex'):
+                var[s] = [var[s], pool.pop() / 64]
         if per_node_ops:
             # every node has an operator of its own carrying its values as defaults; node templates without overrides
             okey = f'{k}{i}{uniq}'
@@ -331,7 +351,10 @@ def _vardecl(lib, defaults):
     L = LIB[lib]
     out = {}
     for s in L['state']:
-        out[s] = f"output({defaults[s]})" if (s == L['out'] or L.get('all_out')) else f"variable({defaults[s]})"
+        val = defaults[s]
+        if isinstance(val, (list, tuple)):
+            val = f'{val[0]!r}{val[1]:+}j'          # complex literal without parentheses
+        out[s] = f"output({val})" if (s == L['out'] or L.get('all_out')) else f"variable({val})"
     for c in L['const']:
         if L.get('array') and c == 'wmid':
             import numpy as np
@@ -340,6 +363,8 @@ def _vardecl(lib, defaults):
             out['w'] = {'vtype': 'constant', 'value': w, 'shape': w.shape, 'dtype': 'float'}
             continue
         out[c] = float(defaults[c])
+    if L.get('complex'):
+        out['ic'] = 0.0 + 1.0j
     out[L['in']] = 'input(0.0)'
     return out
 
@@ -362,7 +387,8 @@ def build_python(spec, pool=None):
         if ('nt', k) not in pool:
             if nt.get('var'):
                 pool[('nt', k)] = NodeTemplate(name=nt['name'],
-                                               operators={ops[ok]: dict(nt['var'].get(ok, {})) for ok in nt['ops']})
+                                               operators={ops[ok]: {v_: cval(x_) for v_, x_ in nt['var'].get(ok, {}).items()}
+                                                          for ok in nt['ops']})
             else:
                 pool[('nt', k)] = NodeTemplate(name=nt['name'], operators=[ops[ok] for ok in nt['ops']])
         nts[k] = pool[('nt', k)]
